@@ -5,4 +5,8 @@ QTols == {<<0,1>>, <<1,2>>, <<1,1>>, <<2,1>>}
 QWindows == {-1, 0, 1, 2, 3, 6}
 QTargets == {0, 1}
 QLimits == {-1, 0, 2, 8}
+QScales == {0}
+QLens == 0..MaxLen
+QExtra == {}
+QExits == BOOLEAN
 ====
